@@ -34,7 +34,10 @@ def _sa(x, dtype=None):
 
 def _elementwise(f, *arrs, vd=None):
     ps = [S._obj(a) if isinstance(a, _ND) else a for a in arrs]
-    r = _np.frompyfunc(f, len(ps), 1)(*ps)
+    if not any(isinstance(a, _ND) for a in ps):
+        r = f(*ps)
+    else:
+        r = _np.frompyfunc(f, len(ps), 1)(*[S._box(a) for a in ps])
     if isinstance(r, _ND):
         r = _fix_elems(r, _np.dtype(vd) if vd is not None else None)
         return SymArray(r, vd)
